@@ -629,7 +629,10 @@ def main(run, only=None, only_b64=None, envs=None, behaviour=False):
         if c.get("expect") == "accept" and not acc:
             run.violation("a well-formed filter definition (corpus) is rejected", rep)
             continue
-        if not (bits & 4):
+        # outside the modelled text domain: decided in Coq on the leaves it recognises (bit 4) and, for a number or
+        # time stamp the generator itself injected as unrepresentable, by its tag (in a struct written as an array the
+        # leaf's field is not known to the domain predicate)
+        if not (bits & 4) or any(t in ("number-outside-exact-domain", "timestamp-outside-subgrammar") for t in c["tags"]):
             n_out += 1
             n_out_dis += 0 if (bits & 1) else 1
             continue
